@@ -202,12 +202,51 @@ def check_batch(res, ctx, batch, want_known=None):
                                                  "lookups": [R.iso(x) for x in r["lookups"]]} for r in runs]})
 
 
+def check_broken_cache(res, ctx, batch):
+    """histories over a cache directory that can not be written (every write fails, every read finds
+    nothing): not modelled, but the property still says every answer is the no-cache answer and a
+    year is downloaded at most once per run - judged on the implementation alone"""
+    st = ctx["stats"]
+    hcases = [R.hist_case(truth, runs, cache="csv-broken") for name, truth, runs in batch]
+    impl = run_harness(ctx["exe"], "hist", hcases)
+    for (name, truth, runs), hc, io in zip(batch, hcases, impl):
+        st["evaluations"] += 1
+        st["cache-csv-broken"] += 1
+        # reading the broken directory reports an error text instead of rows: no content
+        for part in [io] + list(io.get("runs", [])):
+            for key in ("cache", "cache_after"):
+                if isinstance(part.get(key), dict):
+                    for y, v in list(part[key].items()):
+                        if isinstance(v, str):
+                            part[key][y] = None
+        i = R.parse_hist_impl(io, hc["years"])
+        if i["status"] != "ok":
+            res.violation("failing-input", "history over an unwritable cache directory panicked: %s" % i.get("panic"),
+                          {"input": hc, "replay_case": [name, truth, runs]})
+            continue
+        for k, (run_, ir) in enumerate(zip(runs, i["runs"])):
+            pub = R.pub_of(truth, run_["avail"])
+            for j, (dd, a) in enumerate(zip(run_["lookups"], ir["answers"])):
+                exp = R.rule(pub, run_["today"], dd)
+                if a != exp:
+                    ctx["oracle_failures"].append((name, dict(hc, replay_case=[name, truth, runs]), (
+                        "unwritable cache: run %d look-up %d of %s: %s, without a cache %s" % (k, j, R.iso(dd), R.ans_str(a), R.ans_str(exp)),
+                        {"run": k, "lookup_index": j})))
+                    break
+            cnt = collections.Counter(y for y, _ in ir["requests"])
+            for y, c in cnt.items():
+                if c > 1:
+                    ctx["oracle_failures"].append((name, dict(hc, replay_case=[name, truth, runs]), (
+                        "unwritable cache: run %d downloaded year %d %d times" % (k, y, c), {"run": k, "year": y, "downloads": c})))
+
+
 def run(res, ctx):
     tier, seed = ctx["tier"], ctx["seed"]
     rng = random.Random(seed * 7919 + 13)
     ctx.update(stats=collections.Counter(), seen=set(), samples=[], corr_diffs=[], oracle_failures=[])
     st = ctx["stats"]
     check_batch(res, ctx, corpus())
+    check_broken_cache(res, ctx, corpus() + [("random-broken-cache",) + gen_history(rng) for _ in range(300 if tier == "quick" else 3000)])
     n = 8000 if tier == "quick" else 60000
     done = 0
     while done < n:
@@ -257,7 +296,7 @@ def run(res, ctx):
     })
     res.assumptions += [
         "premise of the property: the remote of a run = truth restricted to days before `avail` with today <= avail <= today+1; today and avail non-decreasing over the runs; remote constant during a run and never failing",
-        "cache read/write errors (unreadable directory, failed write) are not modelled",
+        "cache read/write errors are not modelled; histories over an unwritable cache directory are judged on the implementation alone (answers = no-cache answers, at most one download per year per run)",
     ]
 
 
